@@ -360,6 +360,19 @@ def extreme_points(n, seed, maxpts=20):
     return pts
 
 
+def _has_mx(value):
+    import casadi as ca
+    return isinstance(value, list) and any(isinstance(e, ca.MX) or _has_mx(e) for e in value)
+
+
+def _list_to_mx(value):
+    """A (nested) list with MX elements as one MX, with the layout ca.DM gives a numeric list."""
+    import casadi as ca
+    if any(isinstance(row, list) for row in value):
+        return ca.vertcat(*[ca.horzcat(*[ca.MX(e) for e in row]) for row in value])
+    return ca.vertcat(*[ca.MX(e) for e in value])
+
+
 def signature(m, npts=2, seed=0):
     """Everything C19 compares, for a Model or a CachedModel."""
     import casadi as ca
@@ -387,15 +400,27 @@ def signature(m, npts=2, seed=0):
                    "aliases": sorted(v.aliases) if isinstance(v.aliases, (set, frozenset, list)) else repr(v.aliases)}
             for a in ATTRS:
                 val = getattr(v, a)
-                if isinstance(val, list) and any(isinstance(e, ca.MX) for e in val):
-                    val = ca.vertcat(*[ca.MX(e) for e in val])     # array attribute with symbolic elements
+                kind = "MX" if isinstance(val, ca.MX) else "py:" + type(val).__name__
+                if isinstance(val, list) and _has_mx(val):
+                    val = _list_to_mx(val)      # array attribute with symbolic elements
+                # Values only, element-wise (column-major) at the parameter points, a scalar broadcast over the
+                # variable's elements.  Whether a value is held as a float, a list, an ndarray, a DM, a constant MX or
+                # an MX expression is representation (it even varies between two compiles of one source, because
+                # pymoca iterates over sets of variables while substituting): `_kind` is informative, never compared.
                 if isinstance(val, ca.MX):
-                    # a scalar attribute of an array variable means "each": compare broadcast values
                     if val.numel() == 1 and v.symbol.numel() > 1:
                         val = ca.repmat(val, *v.symbol.shape)
-                    row[a] = {"kind": "MX", "shape": list(val.shape), "at": eval_at_params(val)}
+                    at = eval_at_params(val)
+                    at = [x["v"] if isinstance(x, dict) and "v" in x else x for x in at] if isinstance(at, list) else at
                 else:
-                    row[a] = {"kind": "py", "val": pyval(val)}
+                    try:
+                        vals = dm_vals(ca.DM(val))["v"]
+                        if len(vals) == 1 and v.symbol.numel() > 1:
+                            vals = vals * int(v.symbol.numel())
+                        at = [vals] * len(ppts)
+                    except Exception:
+                        at = {"opaque": pyval(val)}
+                row[a] = {"_kind": kind, "at": at}
             rows.append(row)
         sig[cat] = rows
     for cat in ("string_parameters", "string_constants"):
@@ -482,7 +507,7 @@ def diff(a, b, path="", out=None, limit=6):
         return out
     if isinstance(a, dict) and isinstance(b, dict):
         for k in sorted(set(a) | set(b)):
-            if path == "" and k == "class":
+            if (path == "" and k == "class") or str(k).startswith("_"):
                 continue
             if k not in a or k not in b:
                 out.append("%s/%s: only in %s" % (path, k, "first" if k in a else "second"))
